@@ -96,6 +96,63 @@ func main() {
 		exe, _ := os.Executable()
 		*verif = filepath.Dir(filepath.Dir(exe))
 	}
+	if strings.Contains(*prop, ",") || *prop == "all" {
+		// corpus mode: one load, every requested rule set, one verdict line per property; no evidence is written
+		// (used by tools/run_corpus.sh on scratch copies, never registered in MANIFEST.json)
+		ids := strings.Split(*prop, ",")
+		if *prop == "all" {
+			ids = ids[:0]
+			for k := range registry {
+				ids = append(ids, k)
+			}
+		}
+		sort.Strings(ids)
+		p, err := loadProg(repoDir, nil, "default")
+		if err != nil {
+			fmt.Printf("LOAD-ERROR %v\n", err)
+			os.Exit(2)
+		}
+		rc := 0
+		for _, id := range ids {
+			spec := registry[id]
+			if spec == nil || !strings.HasPrefix(id, "C") {
+				continue
+			}
+			func() {
+				rep := newReport(id, p)
+				defer func() {
+					if e := recover(); e != nil {
+						fmt.Printf("== %s: PANIC %v\n", id, e)
+						rc = 1
+					}
+				}()
+				spec.Run(rep)
+				bad := []Obl{}
+				for _, o := range rep.Obls {
+					if o.Status == "violated" || o.Status == "undecided" {
+						bad = append(bad, o)
+					}
+				}
+				if len(bad) == 0 {
+					fmt.Printf("== %s: silent\n", id)
+					return
+				}
+				rc = 1
+				fmt.Printf("== %s: DETECTED\n", id)
+				for i, o := range bad {
+					if i >= 6 {
+						break
+					}
+					d := o.Detail
+					if len(d) > 260 {
+						d = d[:260]
+					}
+					fmt.Printf("   %s: %s [%s]: %s\n", o.Pos, o.Key, o.Status, d)
+				}
+			}()
+		}
+		os.Exit(rc)
+	}
 	spec := registry[*prop]
 	if spec == nil {
 		ids := []string{}
